@@ -48,6 +48,8 @@ def matcher_runs(t: str):
                                   maxt=2, maxn=3, tails=["none", "x"])),
             ("T2-N3-lookalikes", dict(lits=["a"], wilds=["x"], anon=False, nested=False, quants=q4, nodes=["a", "sa", "n1", "s1"],
                                       maxt=2, maxn=3, tails=["none", "x"])),
+            ("T2-N3-prefix-lookalikes", dict(lits=["la"], wilds=["x"], anon=False, nested=False, quants=q4, nodes=["ga", "gab", "la", "lab", "ca", "cab"],
+                                             maxt=2, maxn=3, tails=["none", "x"])),
         ]
     return [
         ("T3-N4", dict(lits=["a", "b"], wilds=["x", "y"], anon=True, nested=False, quants=q4, nodes=["a", "b"],
@@ -58,6 +60,8 @@ def matcher_runs(t: str):
                               maxt=3, maxn=4, tails=["none", "x"])),
         ("T4-N4-x", dict(lits=["a"], wilds=["x"], anon=True, nested=False, quants=["1", "?", "*"], nodes=["a", "b"],
                          maxt=4, maxn=4, tails=["none", "x"])),
+        ("T3-N3-prefix-lookalikes", dict(lits=["la", "ga"], wilds=["x", "y"], anon=False, nested=False, quants=q4,
+                                         nodes=["ga", "gab", "la", "lab", "ca", "cab"], maxt=3, maxn=3, tails=["none", "x"])),
         ("T3-N4-lookalikes", dict(lits=["a"], wilds=["x", "y"], anon=False, nested=False, quants=q4, nodes=["a", "sa", "n1", "s1"],
                                   maxt=3, maxn=4, tails=["none", "x"])),
     ]
@@ -65,7 +69,9 @@ def matcher_runs(t: str):
 
 # --------------------------------------------------------------------------------------
 # "sa" / "s1" are STRING constants whose text is the name a / the number 1: different trees from the atoms "a" and "n1"
-NODE_SRC = {"a": "a", "b": "b", "c": "c", "ga": "g(a)", "gb": "g(b)", "gc": "g(c)", "sa": "'a'", "n1": "1", "s1": "'1'"}
+NODE_SRC = {"a": "a", "b": "b", "c": "c", "ga": "g(a)", "gb": "g(b)", "gc": "g(c)", "sa": "'a'", "n1": "1", "s1": "'1'",
+            # trees of which one is the other plus something at the END of a list (arguments, elements, comparators)
+            "gab": "g(a, b)", "la": "[a]", "lab": "[a, b]", "ca": "a < b", "cab": "a < b < c"}
 SRC_NODE = {v: k for k, v in NODE_SRC.items()}
 
 
@@ -79,6 +85,8 @@ def build_hand_template(core, tpl, tail):
             return ast.Call(func=ast.Name(id="g"), args=[core.Wildcard("x")], keywords=[])
         if b in ("ga", "gb", "gc"):
             return ast.Call(func=ast.Name(id="g"), args=[ast.Name(id=b[1])], keywords=[])
+        if b in NODE_SRC and NODE_SRC[b] != b:
+            return ast.parse(NODE_SRC[b], mode="eval").body
         return ast.Name(id=b)
     wrap = {"1": lambda t: t, "?": core.ZeroOrOne, "*": core.ZeroOrMany, "+": core.OneOrMany}
     elts = [wrap[e["q"]](base(e["b"])) for e in tpl]
